@@ -238,4 +238,19 @@ def F12():  # file replaced by a directory of the same name in one commit: the d
         shutil.rmtree(root, ignore_errors=True)
 
 
+def N13():  # dry-run preview vs real run on a clone with a remote-only branch
+    root, repo = new_repo()
+    try:
+        commit(repo, {'a': 'a'}, 'c1'); sh(repo, 'git checkout -q -b side'); commit(repo, {'b': 'b'}, 'c2'); sh(repo, 'git checkout -q main')
+        clone = os.path.join(root, 'clone'); copy = os.path.join(root, 'copy')
+        subprocess.run(['git', 'clone', '-q', '--no-local', repo, clone], check=True, env=e2e.GIT_ENV, stderr=subprocess.DEVNULL)
+        shutil.copytree(clone, copy, symlinks=True)
+        rc1, _, _ = tool(clone, '--dry-run', '--path', 'a')
+        rc2, _, _ = tool(copy, '--path', 'a')
+        f = lambda r: open(os.path.join(r, '.git/filter-repo/fast-export.filtered'), 'rb').read()
+        return rc1 != 0 or rc2 != 0 or f(clone) != f(copy)
+    finally:
+        shutil.rmtree(root, ignore_errors=True)
+
+
 RECIPES = {k: v for k, v in list(globals().items()) if callable(v) and k[0] in 'FNR' and k[1:].isdigit()}
